@@ -309,6 +309,76 @@ class Gen:
                     for lb in labs: self.meta["same"].append((seq_set, len(out) - 2, lb))
         return out
 
+    # ------------------------------------------------------------------ constraint sets
+    def cset(self, ops, coords, sph, q0, allow_loops=True, allow_contacts=True, max_rows=None):
+        """returns (lines, nrows, has_loop).  Contacts: 1-3 mutually orthogonal normals per point.  Loops: frames made
+        coincident at q0 (loopauto), any subset of the six axes, offset along unconstrained translational axes."""
+        r = self.r; lines = []; rows = 0
+        ndof = len(coords); max_rows = max_rows or max(1, ndof - 1)
+        f = lambda v: " ".join(fl(x) for x in v)
+        refs = [str(k) for k in range(len(ops))]
+        has_loop = False
+        ngroups = r.randint(1, 3)
+        for _ in range(ngroups):
+            if rows >= max_rows: break
+            kind = r.choice((["contact"] * 2 if allow_contacts else []) + (["loop"] if allow_loops else []))
+            if kind == "contact":
+                ref = r.choice(refs); pt = [self.dy(-1, 1) for _ in range(3)]
+                R = self.rot(); k = min(r.randint(1, 3), max_rows - rows)
+                for j in range(k):
+                    lines.append("contact %s %s %s" % (ref, f(pt), f(R[j]))); rows += 1
+                self.count("calls", "contact%d" % k)
+            else:
+                a = r.choice(refs); b = r.choice([x for x in refs if x != a] + ["base"])
+                if r.random() < 0.5: a, b = b, a
+                if a == "base" and b == "base": continue
+                E = self.rot(); rp = [self.dy(-0.5, 0.5) for _ in range(3)]
+                k = min(r.randint(1, 6), max_rows - rows)
+                axes_idx = r.sample(range(6), k)
+                off = [Fr(0)] * 3
+                for t in range(3):
+                    if (3 + t) not in axes_idx and r.random() < 0.5: off[t] = self.dy(-0.5, 0.5)
+                axes = []
+                for ai in sorted(axes_idx):
+                    v = [Fr(0)] * 6; v[ai] = Fr(1); axes.append(v)
+                baum = 1 if r.random() < 0.25 else 0
+                lines.append("loopauto %s %s %s %s %s %d %s %d %s %s" % (a, b, f([x for row in E for x in row]), f(rp), f(off), k,
+                             " ".join(f(v) for v in axes), baum, fl(self.dy(0.05, 0.5)), self.vec(q0)))
+                rows += k; has_loop = True
+                self.count("calls", "loop%d" % k)
+        return lines, rows, has_loop
+
+    def _cons_case(self, routines, ncalls=6, **kw):
+        r = self.r
+        lines, ops, coords, sph = self._model_nonempty(nmin=2, nmax=6, kinds=[k for k in self.JOINTS if k not in ("crztx",)] + ["float", "float"])
+        q0, _, _, _ = self.state(coords, sph)
+        cl, rows, has_loop = self.cset(ops, coords, sph, q0, **kw)
+        out = ["case x"] + lines + cl
+        if rows == 0: out.append("contact 0 0.0 0.0 0.0 0.0 0.0 1.0"); rows = 1
+        Q = self.vec(q0)
+        for _ in range(ncalls):
+            rt = r.choice(routines); self.count("calls", rt)
+            _, qd, qdd, tau = self.state(coords, sph)
+            QD, TAU = self.vec(qd), self.vec(tau)
+            if rt == "cjac": out.append("cjac 1 %s" % Q)
+            elif rt == "cerr": out.append("cerr 1 %s" % Q)
+            elif rt == "cverr": out.append("cverr 1 %s %s" % (Q, QD))
+            elif rt == "csys": out.append("csys feas %s %s %s %s" % (Q, QD, TAU, self.fext(ops)))
+            elif rt == "fdc":
+                out.append("csolver %d" % r.randint(1, 3))
+                meth = r.choice(["direct", "range", "null"] + (["kokkevis"] if not has_loop else []))
+                out.append("fdc %s feas %s %s %s %s" % (meth, Q, QD, TAU, self.fext(ops) if (r.random() < 0.5 and meth != "kokkevis") else "F 0"))
+                self.count("calls", "fdc_" + meth)
+            elif rt == "imp":
+                vp = [0.0] * rows if r.random() < 0.6 else [float(self.dy(-1, 1)) for _ in range(rows)]
+                out.append("csolver %d" % r.randint(1, 3))
+                out.append("imp %s %s %s %s" % (r.choice(["direct", "range", "null"]), Q, QD, self.vec(vp)))
+            elif rt == "scramble": out.append("scramble %d" % r.randint(0, 9))
+        return out
+    def case_C09(self, idx): return self._cons_case(["cjac", "cerr", "cverr", "csys", "scramble"], ncalls=7)
+    def case_C08(self, idx): return self._cons_case(["fdc", "fdc", "csys", "scramble"], ncalls=6)
+    def case_C10(self, idx): return self._cons_case(["imp", "imp", "scramble"], ncalls=5)
+
     def case_C14(self, idx):
         """construction sequences with a rejected call injected; dump before and after every add"""
         r = self.r
